@@ -547,7 +547,11 @@ func (w *worker) build(kind int, order []*pattern) (e *route.Engine, panicMsg st
 	e = route.NewEngine(opt)
 	if kind == engDirect {
 		for k, p := range order {
-			e.GET(p.s, w.hPre[k], w.hMain[k])
+			spelled := p.s
+			if k%2 == 1 {
+				spelled = "/." + p.s // the same pattern written with a dot segment: registration joins and cleans paths
+			}
+			e.GET(spelled, w.hPre[k], w.hMain[k])
 		}
 		return e, ""
 	}
@@ -557,12 +561,30 @@ func (w *worker) build(kind int, order []*pattern) (e *route.Engine, panicMsg st
 	e.Use(func(context.Context, *app.RequestContext) {})
 	e.Use(func(context.Context, *app.RequestContext) {})
 	e.POST(postRoutes[0], w.hPost[0])
+	// groups with an even index are created first and without handlers, get their middleware through Use afterwards and
+	// their routes last: sibling groups made from one parent must not share the parent's chain
+	late := map[int]*route.RouterGroup{}
+	for k, p := range order {
+		if k%2 == 0 {
+			base, _ := splitGroup(p.s)
+			late[k] = e.Group(base)
+		}
+	}
+	for k := range order {
+		if g := late[k]; g != nil {
+			g.Use(w.hGrp[k])
+		}
+	}
 	for k, p := range order {
 		base, rel := splitGroup(p.s)
-		if k%2 == 1 && len(p.s) > 1 && strings.HasSuffix(p.s, "/") {
-			base, rel = p.s, "" // a group whose base path carries the trailing slash, route registered with an empty relative path
+		if g := late[k]; g != nil {
+			g.GET(rel, w.hMain[k])
+		} else {
+			if len(p.s) > 1 && strings.HasSuffix(p.s, "/") {
+				base, rel = p.s, "" // a group whose base path carries the trailing slash, route registered with an empty relative path
+			}
+			e.Group(base, w.hGrp[k]).GET(rel, w.hMain[k])
 		}
-		e.Group(base, w.hGrp[k]).GET(rel, w.hMain[k])
 		if k == 0 {
 			e.POST(postRoutes[1], w.hPost[1])
 		}
